@@ -71,7 +71,7 @@ def gen_chart(r: random.Random, game: str, hi: int = 8, keys: int | None = None,
             r.shuffle(bpms)
     lists["bpms"] = bpms
     if "svs" in slots:
-        lists["svs"] = gen_rows(r, slots["svs"], r.choice([0, 0, 1, 2, 3]), keys, seen, sort=srt)
+        lists["svs"] = gen_rows(r, slots["svs"], r.choice([0, 0, 1, 2, 3]) if hi <= 24 else r.randint(hi // 2, hi * 2), keys, seen, sort=srt)
         if game == "qua" and lists["svs"] and r.random() < 0.25:
             r.choice(lists["svs"])["multiplier"] = 0.0  # a Quaver "stop" SV (osu's domain excludes 0, Quaver's does not)
         if game == "qua" and lists["svs"] and r.random() < 0.2:
@@ -99,10 +99,14 @@ def gen_map_meta(r: random.Random, game: str, keys: int) -> dict:
         m = dict(title=t, artist=a, title_unicode=r.choice(UNI_TITLES), artist_unicode=r.choice(UNI_TITLES),
                  creator=r.choice(CREATORS), version=r.choice(["Easy", "Hard", "x y", "7K"]),
                  circle_size=float(keys), preview_time=r.choice([-1, 0, 1000, 12345]),
-                 audio_file_name="audio.mp3", background_file_name=r.choice(["bg.jpg", ""]),
+                 audio_file_name="audio.mp3", background_file_name=r.choice(["bg.jpg", "", "a,b.png"]),
                  tags=list(r.choice([[], ["a"], ["a", "b"]])))
         if r.random() < 0.4:
             m["samples"] = gen_rows(r, "OsuSampleList", r.choice([1, 2, 3]))
+            if r.random() < 0.3:
+                # a marathon chart: a sample event past 1 000 000 ms on a time that is not a multiple of 10
+                # (seven significant digits: a six-digit print loses the last one)
+                r.choice(m["samples"])["offset"] = r.choice([1333332.0, 2099997.0, 1049998.0, 1646083.0])
         return m
     if game == "qua":
         return dict(title=t, artist=a, creator=r.choice(CREATORS), difficulty_name=r.choice(["Easy", "Hard", "x y"]),
